@@ -9,7 +9,8 @@ the fuel over the four mutually recursive functions `eval`, `evalArgs`, `force`,
 
 * `L : At → Prop`, a property of located nodes inherited by children,
 * `P : EvalErr → Prop`, which must accept every error whose span is that of an `L` node,
-* `U : Compound → Prop`, a property of the units of all intermediate values,
+* `U : Compound → Prop`, a property of the units of all intermediate values, and
+  `K : UnitKey → Prop`, a property of the unit keys the word lexer produces,
 
 and with the hypothesis that the fuel is at least twice the number of tree
 elements (`size`), which is what makes the `"fuel"` outcome unreachable.
